@@ -149,6 +149,13 @@ func (c *c12Ctl) gate(kind byte, id int) (int, byte) {
 	by := -1
 	if t != nil {
 		by = t.idx
+	} else { // free-running after an abort: identify the caller by its goroutine
+		gid := c12GoroutineID()
+		for _, x := range c.threads {
+			if x.gid == gid {
+				by = x.idx
+			}
+		}
 	}
 	u := &c12UpCall{Kind: kind, ID: id, By: by, CallT: c.now(), Outcome: c.outcome(n)}
 	c.ups = append(c.ups, u)
@@ -262,7 +269,7 @@ type c12Obs struct {
 	Ctl      *c12Ctl
 }
 
-const c12Timeout = 4 * time.Second
+const c12Timeout = 2 * time.Second
 
 // c12Execute runs the case on the real queue, following the model's tokens grant by grant.
 func c12Execute(c *c12Case, tokens []string) *c12Obs {
@@ -820,12 +827,21 @@ func runC12(a vh.Args, o *vh.Oracle, r *vh.Result) error {
 	}
 	rng := vh.NewRand(a.Seed)
 	st := &c12Stats{}
+	hangs := 0
+	errStop := fmt.Errorf("stop")
 	run := func(c *c12Case, src string) error {
-		bad, err := c12Check(o, r, c, true, st)
+		if hangs >= 3 {
+			return errStop
+		}
+		_, err := c12Check(o, r, c, true, st)
 		if err != nil {
 			return err
 		}
-		_ = bad
+		if strings.Contains(c.ImplEv, "TIMEOUT") || strings.Contains(c.Impl, "?") {
+			if hangs++; hangs >= 3 {
+				r.Note("three cases ended with a blocked caller: the remaining cases are skipped (each costs seconds of watchdog time)")
+			}
+		}
 		c12Record(r, c, src)
 		if r.Evaluations <= 3 {
 			r.Sample(map[string]interface{}{"callers": c.Callers, "outcomes": c.Outcomes, "schedule": c12GrantString(c.Grants), "events": c.ImplEv, "answers": c.Impl})
@@ -874,7 +890,7 @@ func runC12(a vh.Args, o *vh.Oracle, r *vh.Result) error {
 			}
 			for _, sch := range strings.Split(p[1], "/") {
 				c := &c12Case{Callers: strings.Split(s.callers, ","), Outcomes: oc, Grants: c12ParseGrants(sch)}
-				if err := run(c, "enumerated"); err != nil {
+				if err := run(c, "enumerated"); err != nil && err != errStop {
 					return err
 				}
 			}
@@ -891,7 +907,9 @@ func runC12(a vh.Args, o *vh.Oracle, r *vh.Result) error {
 		if err := c12Walk(o, rng, c); err != nil {
 			return err
 		}
-		if err := run(c, "sampled"); err != nil {
+		if err := run(c, "sampled"); err == errStop {
+			break
+		} else if err != nil {
 			return err
 		}
 	}
